@@ -464,6 +464,7 @@ class DB:
         d.tables = {k: t.copy() for k, t in self.tables.items()}
         d.committed = {k: t.copy() for k, t in self.committed.items()}
         d.commits = self.commits
+        d.dtcols = set(getattr(self, "dtcols", ()))
         return d
 
 
@@ -599,8 +600,11 @@ class SqlEval:
             a, an = self.expr(e[2], tab, key)
             b, bn = self.expr(e[3], tab, key)
             o = e[1]
-            is_dt = lambda x: x[0] == "call" and x[1] == "datetime"
-            bare = lambda x: x[0] in ("col", "param", "qparam")
+            dtcols = getattr(get_db(self.I), "dtcols", ())
+            tname = getattr(getattr(tab, "schema", None), "name", None)
+            sqlite_col = lambda x: x[0] == "col" and (tname, x[1]) in dtcols  # written by datetime() earlier in this unit
+            is_dt = lambda x: (x[0] == "call" and x[1] == "datetime") or sqlite_col(x)
+            bare = lambda x: x[0] in ("col", "param", "qparam") and not sqlite_col(x)
             if o in ("<", "<=", ">", ">=") and ((is_dt(e[2]) and bare(e[3])) or (is_dt(e[3]) and bare(e[2]))):
                 # TEXT comparison of a datetime() result ('YYYY-MM-DD HH:MM:SS') with a bare column / parameter, which the Python
                 # side writes with isoformat() ('YYYY-MM-DDTHH:MM:SS+00:00'): byte-wise, NOT chronological ('T' > ' ' on the same
@@ -858,6 +862,11 @@ def _insert(I, ev, stmt, tab, crec, eff):
     colvals = {}
     for c, e in zip(stmt.cols, stmt.values):
         colvals[c] = ev.expr(e, tab, None)
+        if e[0] == "call" and e[1] == "datetime":
+            # the column now holds text in SQLite's own format: a later comparison of it with a bare (isoformat) parameter is
+            # byte-wise, not chronological (see SqlEval.cond)
+            db = get_db(I)
+            db.dtcols = set(getattr(db, "dtcols", ())) | {(stmt.table, c)}
     pk = tab.schema.pk
     if tab.schema.autoinc and pk[0] not in colvals:
         key = fresh_int("rowid")
